@@ -130,7 +130,8 @@ pub fn extreme_sizes(seed: u64, idx: u64) -> Scenario {
     sc.workers = rng.range(1, 2);
     sc.request_size = 10000;
     sc.yields = pick_yields(&mut rng);
-    let l: u64 = *rng.pick(&[1 << 20, (3 << 20) + 1, (1 << 31) - 1, 1 << 31, (1 << 32) + 4096]);
+    // (up to tera- and petabytes: disk images and archives are served from sparse files too)
+    let l: u64 = *rng.pick(&[1 << 20, (3 << 20) + 1, (1 << 31) - 1, 1 << 31, (1 << 32) + 4096, (1 << 40) - 1, 1 << 40, (1 << 40) + 4097, 1 << 43, (1u64 << 50) + 1, (1u64 << 62) + 3]);
     sc.tree = TreeSpec { root: "root".into(), entries: vec![Entry { path: "root/big.bin".into(), kind: EntryKind::File(Content::Sparse { len: l, seed: rng.next() }) }, Entry { path: "root/probe.txt".into(), kind: EntryKind::File(Content::Literal("probe\n".into())) }], mtime_mode: 0, meta_mode: 0 };
     for i in 0..rng.range(1, 3) {
         let k = *rng.pick(&[1usize, 2, 3, 50, 600, 2300]);
